@@ -186,6 +186,21 @@ def gen_cases(tier, seed):
     for s in ["hello world", "a_b c1 d-e", "x(y)[z]{w}<v", "  ", "A-b c(d [e {f <g", "iT's", "a/b?c=d&e f~", "%41+"]:
         for f in ("title", "capitalize", "upper", "lower", "wordcount", "urlencode"):
             add(case(f, s))
+    # ---- urlencode beyond ASCII: Latin-1 letters, CJK, non-ASCII digit, superscript, symbol, emoji
+    # (all alphanumeric-looking or not, alone and mixed with ASCII), and the mapping / pairs form
+    ualpha = ["a", "Z", "7", " ", "/", "~", "&", "=", "+", "%", "\u00e9", "\u00df", "\u65e5", "\u0663", "\u00b2",
+              "\u20ac", "\U0001f600"]
+    utexts = list(strings(ualpha, 2)) + sample(strings(ualpha, 4, 3), 150 if quick else 3000) + \
+        ["caf\u00e9", "\u65e5\u672c\u8a9e", "x\u00b2", "\u0663", "na\u00efve caf\u00e9/\u65e5", "\u00c5ngstr\u00f6m"]
+    for s in utexts:
+        add(case("urlencode", s))
+    for ks in sample(itertools.permutations(utexts[1:60], 2), 60 if quick else 600):
+        d = {ks[0]: ks[1], ks[1]: 5}
+        add(case("urlencode", d))
+        add(case("urlencode", [(ks[0], ks[1]), (ks[1], ks[0])]))
+    for s in sample(utexts, 80 if quick else 800):
+        add(case("urlencode", {"q": s}))
+        add(case("urlencode", [(s, "v")]))
     # ---- replace
     for s in sample(texts, 300 if quick else 2000) + words:
         for old, new in (("a", "xx"), ("a", ""), ("aa", "a"), (" ", "-"), ("B\n", "<"), ("-", "--")):
@@ -265,11 +280,11 @@ def gen_cases(tier, seed):
 
 
 EXCLUDED = [
-    "non-ASCII text; line breaks other than \\n, \\r, \\r\\n (splitlines knows more)",
+    "non-ASCII text (except for urlencode); line breaks other than \\n, \\r, \\r\\n (splitlines knows more)",
     "indent(first=true, blank=false) of a text whose first line is empty",
     "trim with an empty chars argument; replace with an empty search string; truncate with length < len(end)",
     "center of multi-line text",
-    "format beyond %s / %%; striptags with entities or comments; urlencode of non-ASCII / mappings",
+    "format beyond %s / %%; striptags with entities or comments; urlencode of bytes values",
     "int of a decimal string with base != 10 (the documentation says the base is ignored for decimal numbers, "
     "the code parses in that base)",
     "int / float of undefined values",
